@@ -107,6 +107,9 @@ def oracle(ops, m, site_frac, positions, radius):
 def compare(ctx, what, wit, shape, want, knife, radius):
     got = np.asarray(shape.coords)
     dist = np.asarray(shape.distances())
+    # the views of a shape are views of the same points
+    if len(got):
+        ctx.check(np.array_equal(np.asarray(shape.x), got[:, 0]) and np.array_equal(np.asarray(shape.y), got[:, 1]) and np.array_equal(np.asarray(shape.z), got[:, 2]) and np.allclose(np.asarray(shape.centroid()), got.mean(axis=0), atol=1e-12) and np.allclose(np.asarray(shape.origin), np.asarray(shape.site.coords), atol=1e-12), f'{what}: x / y / z / centroid() / origin of the shape are not the columns / mean of its points / the site position', wit)
     ok = True
     if len(got):
         far = dist.max()
